@@ -1833,6 +1833,32 @@ def _array_index(pe, st, args, t):
 
 
 @pmodel("std::cmp::PartialEq::ne")
+@pmodel("std::cmp::impls::<impl std::cmp::PartialEq<&B> for &A>::eq", "std::cmp::impls::<impl std::cmp::PartialEq<&B> for &A>::ne",
+        "std::cmp::impls::<impl std::cmp::PartialEq<&mut B> for &mut A>::eq", "std::cmp::impls::<impl std::cmp::PartialEq<&mut B> for &mut A>::ne",
+        "core::str::traits::<impl std::cmp::PartialEq for str>::eq", "core::str::traits::<impl std::cmp::PartialEq for str>::ne",
+        "<std::string::String as std::cmp::PartialEq>::eq", "<std::string::String as std::cmp::PartialEq>::ne",
+        "<std::string::String as std::cmp::PartialEq<str>>::eq", "<std::string::String as std::cmp::PartialEq<&'a str>>::eq",
+        "<str as std::cmp::PartialEq<std::string::String>>::eq", "<&'a str as std::cmp::PartialEq<std::string::String>>::eq")
+def _ref_eq(pe, st, args, t):
+    """== / != through references: compared by value (texts as texts, scalars as scalars)"""
+    neg = (t.get("callee") or "").endswith("::ne")
+    a, b = _deref_all(pe, st, args[0]), _deref_all(pe, st, args[1])
+    if a == TOP or b == TOP:
+        raise _Abort("top", "comparison of unknown values")
+    sa, sb = _pystr(pe, st, a), _pystr(pe, st, b)
+    if sa is not None and sb is not None:
+        return mk_bool((sa == sb) != neg)
+    if a[0] == b[0] and a[0] in ("int", "bool", "char", "enum", "float"):
+        return mk_bool((a == b) != neg)
+    if a[0] == b[0] == "adt" and a[1] == b[1]:
+        eqp = "<%s as std::cmp::PartialEq>::eq" % a[1]
+        if pe.facts.fn(eqp) is not None:
+            r = pe.invoke_closure(st, ("fn", eqp), [("ref", ("const", a)), ("ref", ("const", b))])
+            if r != TOP and r[0] == "bool":
+                return mk_bool(r[1] != neg)
+    raise _Abort("top", "comparison of values the evaluator cannot compare")
+
+
 def _partial_ne(pe, st, args, t):
     a, b = _deref_all(pe, st, args[0]), _deref_all(pe, st, args[1])
     gen = t.get("generics") or []
